@@ -345,6 +345,33 @@ Section Main.
     exec_impl shuffle sqlite embed cols ixs sa returning sorted page t ps = Err EInvalidRequest.
   Proof. intros. unfold exec_impl. rewrite H. reflexivity. Qed.
 
+  (* without an embedded counter a batched execution has no per-row bindparam in SET / WHERE at all *)
+  Lemma batched_no_row_par : forall returning sorted n sa,
+    batched false returning sorted n sa = true ->
+    existsb has_set_par sa = false /\ existsb has_where_par sa = false.
+  Proof.
+    intros returning sorted n sa H. unfold batched, use_row_at_a_time in H.
+    assert (E : existsb has_row_par sa = false).
+    { destruct returning, sorted, (Nat.ltb 1 n), (existsb has_row_par sa); cbn in H; try discriminate; reflexivity. }
+    clear H. induction sa as [|c sa IH]; [auto|].
+    cbn [existsb] in *. apply orb_false_elim in E. destruct E as [E1 E2].
+    unfold has_row_par in E1. apply orb_false_elim in E1. destruct E1 as [A B].
+    destruct (IH E2) as [IH1 IH2]. rewrite A, B, IH1, IH2. auto.
+  Qed.
+
+  (* MAIN for SQLite and for PostgreSQL without embedded counter: the only guard left on a batched execution is
+     "no bindparam() inside index_where" (outside the validated region of the model) *)
+  Theorem exec_impl_equiv_no_embed : forall sqlite cols ixs sa returning sorted page t ps cls,
+    wf_cols cols -> chain_ok sa = true -> spec_of cols sa = Some cls -> Forall sets_nodup cls ->
+    sqlite && existsb uses_literal_execute sa && Nat.ltb 1 (length ps) = false ->
+    existsb has_iw_par sa = false ->
+    res_equiv (exec_impl shuffle sqlite false cols ixs sa returning sorted page t ps) (upsert_spec ixs cls t ps).
+  Proof.
+    intros sqlite cols ixs sa returning sorted page t ps cls Hwf Hch Hspec Hnd Hlit Hiw.
+    apply exec_impl_equiv; auto. intros Hb.
+    destruct (batched_no_row_par _ _ _ _ Hb) as [A B]. unfold batch_safe. rewrite A, B, Hiw. reflexivity.
+  Qed.
+
   (* MySQL *)
   Theorem exec_mysql_eq : forall cols ixs alias ordered upd sets t ps,
     NoDup (map cname cols) -> my_asm cols ordered upd <> [] ->
